@@ -264,6 +264,25 @@ def run(ck):
                     ck.fail_case({"model": model, "geometry": geo, "clause": "refused although three or more points lie strictly inside the limits"}, {"pressure": ps, "limits": lim})
             lines.append(f"win micro {'N' if lim is None else 'L'} {optq(None if lim is None else lim[0])} {optq(None if lim is None else lim[1])} {qlist(ps)} []")
             plan.append(("win", got))
+        # ------------------------------------------------------------------ adsorbate parameters taken from the isotherm (no explicit dictionary), several temperatures in one session
+        ads_n2 = pg.Adsorbate.find("N2")
+        for T in (77.355, 87.3, 70.0, 77.355):
+            ps = sorted({logu(rng, 1e-6, 0.15) for _ in range(12)})
+            load = list(np.cumsum([rng.uniform(0.05, 1) for _ in ps]))
+            iso = pg.PointIsotherm(pressure=ps, loading=load, material="pgv-synth", adsorbate="N2", temperature=T, pressure_mode="relative", pressure_unit=None,
+                                   loading_basis="molar", loading_unit="mmol", material_basis="mass", material_unit="g", temperature_unit="K")
+            ck.count(("entry-db-params", T), bucket="entry point:adsorbate parameters from the isotherm")
+            try:
+                res = pgc.psd_microporous(iso, psd_model="HK", pore_geometry="slit", branch="ads", material_model="Carbon(HK)", p_limits=(None, 0.2))
+            except Exception as e:  # noqa
+                ck.fail_case({"model": "HK", "geometry": "slit", "clause": "entry point raises", "error": type(e).__name__}, {"T": T, "error": repr(e)[:200]})
+                continue
+            a, b = int(res["limits"][0]), int(res["limits"][1])
+            want = [x * ads_n2.molar_mass() / pg.Adsorbate.find("N2").liquid_density(T) / 1000 for x in load[a:b + 1]][1:]
+            cum = [float(x) for x in res["pore_volume_cumulative"]]
+            if len(cum) != len(want) or max(relerr(x, y) for x, y in zip(cum, want)) > 1e-9:
+                ck.fail_case({"model": "HK", "geometry": "slit", "clause": "cumulative pore volume is not the adsorbed amount as liquid volume", "entry": "psd_microporous without adsorbate_model"},
+                             {"T": T, "got": cum[:3], "expected": want[:3]})
     finally:
         pm._solve_hk, pm._solve_hk_cy = orig_hk, orig_cy
 
